@@ -7,6 +7,8 @@ TARGET = os.environ.get("VERIF_TARGET", os.path.join(VERIF, "target"))
 SVH = os.path.join(TARGET, "debug", "svh")
 NPROC = int(os.environ.get("VERIF_NPROC", "16"))
 SEED = int(os.environ.get("VERIF_SEED", "0") or 0)
+# experiments against a modified tree (seeded change, reverted fix) write their evidence / replays elsewhere
+OUT = os.environ.get("VERIF_OUT", VERIF)
 
 
 class MachineryError(Exception):
@@ -103,7 +105,7 @@ def close_harnesses():
 atexit.register(close_harnesses)
 
 
-def run_cases(cases, env=None, batch=50, timeout_ms=10000, engine="new"):
+def run_cases(cases, env=None, batch=50, timeout_ms=10000, engine="new", retry_timeouts=True):
     """Run eval cases ({"id","steps",..}) in forked children of a pristine engine.
     Returns {id: {"steps":[..], "exit": "normal"|"signal:N"|"timeout"|...}}.
     Cases lost when a batch child dies are re-run one per child, so every verdict about a
@@ -142,6 +144,20 @@ def run_cases(cases, env=None, batch=50, timeout_ms=10000, engine="new"):
                         res[c["id"]] = o2[0]
                     else:
                         res[c["id"]] = {"id": c["id"], "steps": [], "exit": ex2, "last_mark": marks[-1] if marks else None}
+    if retry_timeouts:
+        # a time-out is only believed when it repeats with twice the budget in a child of its own (a loaded machine is not a hang)
+        byid = {c["id"]: c for c in cases}
+        for cid, r in list(res.items()):
+            if r.get("exit") == "timeout" and cid in byid:
+                o2, ex2 = h.request({"cases": [byid[cid]], "timeout_ms": timeout_ms * 2})
+                marks = [o["mark"] for o in o2 if "mark" in o]
+                o2 = [o for o in o2 if "mark" not in o]
+                if o2:
+                    o2[0]["exit"] = "normal"
+                    o2[0]["retried_after_timeout"] = True
+                    res[cid] = o2[0]
+                else:
+                    res[cid] = {"id": cid, "steps": [], "exit": ex2, "last_mark": marks[-1] if marks else None}
     return res
 
 
@@ -228,7 +244,7 @@ class Reporter:
                 seen_known.append(sig)
             else:
                 new.append(sig)
-        rdir = os.path.join(VERIF, "replays", self.prop)
+        rdir = os.path.join(OUT, "replays", self.prop)
         for sig in seen_known:
             print("KNOWN-FINDING: property=%s %s" % (self.prop, self.known[sig].get("what_fails", sig)))
         for sig in new:
@@ -247,8 +263,8 @@ class Reporter:
               "assumptions": assumptions or [], "wall_s": round(wall, 2), "violations": len(new)}
         if extra:
             ev.update(extra)
-        os.makedirs(os.path.join(VERIF, "evidence"), exist_ok=True)
-        with open(os.path.join(VERIF, "evidence", self.prop + ".json"), "w") as fh:
+        os.makedirs(os.path.join(OUT, "evidence"), exist_ok=True)
+        with open(os.path.join(OUT, "evidence", self.prop + ".json"), "w") as fh:
             json.dump(ev, fh, indent=1, ensure_ascii=False)
         summary = {k: v for k, v in cov.items() if isinstance(v, (int, float, bool))}
         print("%s tier=%s wall=%.1fs new_violations=%d known=%d %s" % (
